@@ -464,7 +464,13 @@ void ep3_mul_sim_lot(ep3_t r, const ep3_t p[], const bn_t k[], int n) {
 
 			l = 0;
 			for (i = 0; i < n; i++) {
-				bn_rec_frb(_k, 8, k[i], q, x, ep_curve_is_pairf() == EP_BN);
+				/* The decomposition was called with the order in the place of the
+				 * parameter, which leaves k whole for 0 <= k < r and is wrong
+				 * otherwise: reduce k and keep it whole. */
+				bn_mod(_k[0], k[i], q);
+				for (j = 1; j < 8; j++) {
+					bn_zero(_k[j]);
+				}
 				for (j = 0; j < 8; j++) {
 					_l[8*i + j] = len;
 					bn_rec_naf(&naf[(8*i + j)*len], &_l[8*i + j], _k[j], 2);
@@ -539,7 +545,13 @@ void ep3_mul_sim_lot(ep3_t r, const ep3_t p[], const bn_t k[], int n) {
 
 			l = 0;
 			for (i = 0; i < n; i++) {
-				bn_rec_frb(_k, 8, k[i], q, x, ep_curve_is_pairf() == EP_BN);
+				/* The decomposition was called with the order in the place of the
+				 * parameter, which leaves k whole for 0 <= k < r and is wrong
+				 * otherwise: reduce k and keep it whole. */
+				bn_mod(_k[0], k[i], q);
+				for (j = 1; j < 8; j++) {
+					bn_zero(_k[j]);
+				}
 				for (j = 0; j < 8; j++) {
 					_l[8*i + j] = len;
 					bn_rec_naf(&naf[(8*i + j)*len], &_l[8*i + j], _k[j], w);
